@@ -97,7 +97,7 @@ ASSUMPTIONS = [
 ]
 RULE = ("corpus, then quantifiers below and_/or_/not_ and inside other quantifiers (hand-shaped positions + the shared "
         "generator's quantified trees), random root-level exists/for_all over quantifier-free bodies and random quantifier-free condition trees (depth<=3, 1-3 variables, int/object domains as one-shot "
-        "logging generators); each query is rebuilt and consumed for every k in 0..n+1; non-trivial = the query has "
+        "logging generators); each query is rebuilt and consumed for every k in 0..n+1, each time followed by a second evaluation of the same object of which one result is taken; non-trivial = the query has "
         ">=2 results and some domain is not fully pulled at k=1; distinct by case text")
 
 LOG = []
